@@ -194,7 +194,7 @@ void op_hash(const Case& c, TaskCtx& t, Outcome& o) {
       size_t d = 0;
       while (d < outs[l].size() && outs[l][d] == exp[l][d])
         d++;
-      return (void)o.fail("C14.differs_from_shake", std::string("SHAKE") + std::to_string(bits) + " " + G.variant + (x4 ? " x4 lane " + std::to_string(l) : " single") + " schedule [" + c.s("sched") +
+      CHECK_FAIL("C14.differs_from_shake", std::string("SHAKE") + std::to_string(bits) + " " + G.variant + (x4 ? " x4 lane " + std::to_string(l) : " single") + " schedule [" + c.s("sched") +
                                                         "]: output differs from one-shot SHAKE at byte " + std::to_string(d));
     }
 }
@@ -217,7 +217,7 @@ void op_allocfail(const Case& c, TaskCtx& t, Outcome& o) {
   bytes msg = msg_from_case(c);
   bytes sig;
   if (target != "keygen" && !honest_signature(k, msg, sig))
-    return (void)o.fail("C01.sign_failed", "honest signing failed");
+    CHECK_FAIL("C01.sign_failed", "honest signing failed");
   bytes vsig = sig;
   if (target == "verifybad")
     vsig[(size_t)(c.u("bit", 12345) % (8 * vsig.size())) >> 3] ^= 0x10;
@@ -337,7 +337,7 @@ void op_allocfail(const Case& c, TaskCtx& t, Outcome& o) {
     t.stats->tuple(std::string(p.name) + "|" + target + "|alloc_fail|" + (k2 >= 0 ? "double" : "single") + "|bucket" + std::to_string(k1 * 8 / ap.nalloc) + "|" + cls);
   }
   if (cls == "WRONG_SUCCESS")
-    return (void)o.fail("C18.wrong_success", std::string(p.name) + " " + target + ": allocation " + std::to_string(k1) + (k2 >= 0 ? " and " + std::to_string(k2) : "") + " of " + std::to_string(ap.nalloc) +
+    CHECK_FAIL("C18.wrong_success", std::string(p.name) + " " + target + ": allocation " + std::to_string(k1) + (k2 >= 0 ? " and " + std::to_string(k2) : "") + " of " + std::to_string(ap.nalloc) +
                                                  " failed and the call reported success with a wrong result");
 }
 } // namespace
